@@ -21,7 +21,7 @@ Ts(cls, d) == [month |-> F(cls, 15), date |-> F(cls, 31), hour |-> F(cls, 31) , 
 Mk(hi, lo, cls, fl, el, shape) ==
   LET cdrs == [i \in 1..Len(shape) |->
                  [rel |-> shape[i][1], ver |-> F(cls, 31), fmt |-> IF cls = "zero" THEN 1 ELSE F(cls, 7), ts |-> F(cls, 31),
-                  relExt |-> IF shape[i][1] = 7 THEN 10 + i ELSE 0, payload |-> Payload(shape[i][2], i)]]
+                  relExt |-> IF shape[i][1] = 7 THEN (CASE cls = "zero" -> 0 [] cls = "max" -> 255 [] OTHER -> 10 + i) ELSE 0, payload |-> Payload(shape[i][2], i)]]
       h0 == [fileLength |-> <<0, 0, 0, 0>>, headerLength |-> <<0, 0, 0, 0>>,
              hiRel |-> hi, hiVer |-> F(cls, 31), loRel |-> lo, loVer |-> IF cls = "max" THEN 30 ELSE F(cls, 31),
              openTs |-> Ts(cls, 0), lastTs |-> Ts(cls, 1),
@@ -29,7 +29,8 @@ Mk(hi, lo, cls, fl, el, shape) ==
              fileSeq |-> IF cls = "max" THEN <<255, 255, 255, 255>> ELSE BE4(F(cls, 1)),
              closure |-> F(cls, 255), ip |-> [i \in 1..20 |-> IF cls = "zero" THEN 0 ELSE (i * 3 + F(cls, 200)) % 256],
              lost |-> F(cls, 255), filter |-> Blob(fl, 1), ext |-> Blob(el, 2),
-             hiExt |-> IF hi = 7 THEN 201 ELSE 0, loExt |-> IF lo = 7 THEN 202 ELSE 0]
+             hiExt |-> IF hi = 7 THEN (CASE cls = "zero" -> 0 [] cls = "max" -> 255 [] OTHER -> 201) ELSE 0,
+             loExt |-> IF lo = 7 THEN (CASE cls = "zero" -> 0 [] cls = "max" -> 255 [] OTHER -> 202) ELSE 0]
       st0 == [hdr |-> h0, cdrs |-> cdrs]
   IN [hdr |-> [h0 EXCEPT !.headerLength = BE4(HdrSize(h0)), !.fileLength = BE4(FileSize(st0))], cdrs |-> cdrs]
 
